@@ -1357,6 +1357,8 @@ class _RK45(_AdaptiveStepRK):
                 h = h * factor
                 err_prev = err_norm
             else:
+                if h <= min_step:
+                    raise RuntimeError("Adaptive step size underflow: the error test failed at min_step")
                 factor = _pi_reject_factor(err_norm, order)
                 h = h * factor
                 h = _clamp_step(h, max_step, min_step)
@@ -1454,6 +1456,8 @@ class _RK45(_AdaptiveStepRK):
                 h = h * _pi_accept_factor(err_norm, err_prev, order)
                 err_prev = err_norm
             else:
+                if h <= min_step:
+                    raise RuntimeError("Adaptive step size underflow: the error test failed at min_step")
                 h = h * _pi_reject_factor(err_norm, order)
                 h = _clamp_step(h, max_step, min_step)
 
@@ -1588,6 +1592,8 @@ class _RK45(_AdaptiveStepRK):
                 h = h * _pi_accept_factor(err_norm, err_prev, order)
                 err_prev = err_norm
             else:
+                if h <= min_step:
+                    raise RuntimeError("Adaptive step size underflow: the error test failed at min_step")
                 h = h * _pi_reject_factor(err_norm, order)
                 h = _clamp_step(h, max_step, min_step)
 
@@ -1636,6 +1642,8 @@ class _RK45(_AdaptiveStepRK):
                 h = h * _pi_accept_factor(err_norm, err_prev, order)
                 err_prev = err_norm
             else:
+                if h <= min_step:
+                    raise RuntimeError("Adaptive step size underflow: the error test failed at min_step")
                 h = h * _pi_reject_factor(err_norm, order)
                 h = _clamp_step(h, max_step, min_step)
 
@@ -2489,6 +2497,8 @@ class _DOP853(_AdaptiveStepRK):
                 h = h * _pi_accept_factor(err_norm, err_prev, order)
                 err_prev = err_norm
             else:
+                if h <= min_step:
+                    raise RuntimeError("Adaptive step size underflow: the error test failed at min_step")
                 h = h * _pi_reject_factor(err_norm, order)
                 h = _clamp_step(h, max_step, min_step)
 
@@ -2616,6 +2626,8 @@ class _DOP853(_AdaptiveStepRK):
                 h = h * _pi_accept_factor(err_norm, err_prev, order)
                 err_prev = err_norm
             else:
+                if h <= min_step:
+                    raise RuntimeError("Adaptive step size underflow: the error test failed at min_step")
                 h = h * _pi_reject_factor(err_norm, order)
                 h = _clamp_step(h, max_step, min_step)
 
@@ -2806,6 +2818,8 @@ class _DOP853(_AdaptiveStepRK):
                 h = h * _pi_accept_factor(err_norm, err_prev, order)
                 err_prev = err_norm
             else:
+                if h <= min_step:
+                    raise RuntimeError("Adaptive step size underflow: the error test failed at min_step")
                 h = h * _pi_reject_factor(err_norm, order)
                 h = _clamp_step(h, max_step, min_step)
 
@@ -2871,6 +2885,8 @@ class _DOP853(_AdaptiveStepRK):
                 h = h * _pi_accept_factor(err_norm, err_prev, order)
                 err_prev = err_norm
             else:
+                if h <= min_step:
+                    raise RuntimeError("Adaptive step size underflow: the error test failed at min_step")
                 h = h * _pi_reject_factor(err_norm, order)
                 h = _clamp_step(h, max_step, min_step)
 
